@@ -9,21 +9,33 @@ impl DeclarationElsewhere {
         &self,
         tlds: &'a BTreeMap<String, ToplevelDefinition>,
     ) -> Result<&'a ASN1Type, GrammarError> {
-        match tlds.get(&self.identifier).ok_or_else(|| GrammarError::new(
-            &format!("Failed to resolve reference of ElsewhereDefined: {}", self.identifier),
-            super::GrammarErrorType::LinkerError
-        ))? {
-            ToplevelDefinition::Type(ToplevelTypeDefinition { ty: ASN1Type::ElsewhereDeclaredType(e), .. }) => e.root(tlds),
-            ToplevelDefinition::Type(ToplevelTypeDefinition { ty, .. }) => Ok(ty),
-            ToplevelDefinition::Class(_) => Err(GrammarError::todo()),
-            ToplevelDefinition::Object(_) => Err(GrammarError::todo()),
-            _ => Err(GrammarError::new(
-                &format!(
-                    "Unexpectedly found a value definition resolving reference of ElsewhereDefined: {}",
-                    self.identifier
-                ),
+        let mut current = self;
+        // `A ::= B`, `B ::= A`: an alias cycle has no root, and following it would never end
+        let mut seen: Vec<&str> = Vec::new();
+        loop {
+            if seen.contains(&current.identifier.as_str()) {
+                return Err(GrammarError::new(
+                    &format!("Cyclic type reference resolving reference of ElsewhereDefined: {}", self.identifier),
+                    super::GrammarErrorType::LinkerError
+                ));
+            }
+            seen.push(&current.identifier);
+            match tlds.get(&current.identifier).ok_or_else(|| GrammarError::new(
+                &format!("Failed to resolve reference of ElsewhereDefined: {}", current.identifier),
                 super::GrammarErrorType::LinkerError
-            ))
+            ))? {
+                ToplevelDefinition::Type(ToplevelTypeDefinition { ty: ASN1Type::ElsewhereDeclaredType(e), .. }) => current = e,
+                ToplevelDefinition::Type(ToplevelTypeDefinition { ty, .. }) => return Ok(ty),
+                ToplevelDefinition::Class(_) => return Err(GrammarError::todo()),
+                ToplevelDefinition::Object(_) => return Err(GrammarError::todo()),
+                _ => return Err(GrammarError::new(
+                    &format!(
+                        "Unexpectedly found a value definition resolving reference of ElsewhereDefined: {}",
+                        current.identifier
+                    ),
+                    super::GrammarErrorType::LinkerError
+                ))
+            }
         }
     }
 }
